@@ -28,8 +28,23 @@ check("C04", "model_checking",
       "wait returned for it), Deadline (never consulted after the duration), PacerStop and Ends; adversarial scripted pacers and durations.",
       ATTACK_NOTE, ATTACK_TECH, "DESIGN.md section 4 (C04), Appendix A")
 
+check("C10", "model_checking",
+      "Metrics.tla states Reference(bag) (the documented definitions) and the accumulators of Metrics.Add/Close; TLC checks on all sequences "
+      "of up to 4 results over a value grid (zero latencies, equal/reversed timestamps, code/error/byte mixes) with Close between any two "
+      "additions that the accumulators equal the reference, and that the historic Min==0 rule does not. The real Metrics is then driven with "
+      "large multisets in four orders with random intermediate Close calls, through the JSON reporter and the report command; TLC validates "
+      "every Close against the reference in BigNat arithmetic.",
+      "float fields within 1e-9 abs + 1e-9 rel of the exact rational, mean latency within 1ns + 1e-12 rel; domain: timestamps 1970-2200, latency sums < 2^63",
+      "TLA+ reference vs accumulator model (TLC exhaustive), TLC trace validation of real Add/Close histories", "DESIGN.md section 7 (C10)")
+check("C11", "exploration",
+      "Trace validation only: the percentiles the real estimator reports for many multisets (7 shapes, 3 arrival orders, 1..1e5 samples) "
+      "are checked by TLC against the Quantiles acceptance predicate (ordering chain, rank-error bound from driver-side rank counts, all-equal, "
+      "hdrplot column non-decreasing). No design model: t-digest is a third-party numeric estimator.",
+      "rank counts are computed by the harness on its own sorted copy; sampled inputs only",
+      "TLA+ acceptance predicate, TLC trace validation of reported percentiles", "DESIGN.md section 7 (C11)")
+
 UNDER = "check under construction in this round (specification and driver not committed yet)"
-for p in ["C01", "C05", "C06", "C07", "C08", "C09", "C10", "C11", "C13", "C14", "C15", "C17", "C18", "C19", "C20"]:
+for p in ["C01", "C05", "C06", "C07", "C08", "C09", "C13", "C14", "C15", "C17", "C18", "C19", "C20"]:
     NA[p] = UNDER
 NA["C16"] = ("arbitrary-byte crash/hang freedom of parsers has no abstract state machine to specify; deciding it means fuzzing, "
              "a different technique (DESIGN.md section 9)")
